@@ -5,6 +5,7 @@ import (
 	"fmt"
 	"os"
 	"path/filepath"
+	"regexp"
 	"strings"
 
 	"github.com/whawty/auth/store"
@@ -23,12 +24,12 @@ type ySet struct {
 }
 
 type yDoc struct {
-	basedir    *string
-	dflt       *string
-	sets       []*ySet
-	hasParams  bool
-	extraTop   string
-	dupTop     string
+	basedir   *string
+	dflt      *string
+	sets      []*ySet
+	hasParams bool
+	extraTop  string
+	dupTop    string
 }
 
 func (d *yDoc) render() string {
@@ -225,6 +226,8 @@ func mutate(r *rng.R, d *yDoc) (mustFailDecode bool) {
 	return false
 }
 
+var unknownKeyRe = regexp.MustCompile(`(?m)^(unknown: 1|\s+bcrypt: \{cost: 10\}|\s+lanes: |\s+n: )`)
+
 func suiteC18(c *ctx) {
 	n := 1500
 	if c.thorough() {
@@ -243,6 +246,9 @@ func suiteC18(c *ctx) {
 			}
 		}
 		text := d.render()
+		// decided on the FINAL document: a later mutation may have removed the set that carried the
+		// unknown key, or there was no set to put it into
+		mustFail = unknownKeyRe.MatchString(text)
 		cf := filepath.Join(c.work, "cfg.yaml")
 		os.WriteFile(cf, []byte(text), 0600)
 		dir, err := store.NewDirFromConfig(cf)
